@@ -281,7 +281,13 @@ pub fn extract_tls_signature_from_client_hello(
         match parse_tls_extensions(ext_data) {
             Ok((_remaining, parsed_extensions)) => {
                 for extension in &parsed_extensions {
-                    let ext_type: u16 = TlsExtensionType::from(extension).into();
+                    // tls-parser files every type with (type & 0x0f0f) == 0x0a0a under `Grease` and reports the
+                    // constant 0xfafa for it; keep the type that was on the wire so that only the sixteen
+                    // RFC 8701 values are dropped below
+                    let ext_type: u16 = match extension {
+                        TlsExtension::Grease(wire_type, _) => *wire_type,
+                        other => TlsExtensionType::from(other).into(),
+                    };
 
                     // Filter GREASE extensions
                     if !TLS_GREASE_VALUES.contains(&ext_type) {
